@@ -378,4 +378,32 @@ def r5_one_suffix_per_run(ctx):
     r3_one_suffix_per_run(ctx)
 
 
-RULES = [r5_one_suffix_per_run, r1_fresh_directory, r2_no_clobber_writers, r3_attribution, r4_completeness_and_tables]
+DELETERS = {"unlink", "remove", "rmtree", "rmdir", "removedirs", "truncate", "replace", "move"}
+
+
+def r6_outputs_never_delete(ctx):
+    """"Never overwrites or truncates a file that already exists": nothing in pyxel.outputs removes, replaces or truncates a file - not in an error path either (`except: path.unlink(); raise` after a refused write deletes the very file that made the write fail). The only rename is the log file moved into the fresh run folder."""
+    n = 0
+    for f in sorted(ctx.repo.all_functions(), key=lambda x: x.qual):
+        if not f.module.name.startswith("pyxel.outputs"):
+            continue
+        n += 1
+        bad = []
+        for c in calls_in(f.node):
+            last = call_name(c).split(".")[-1]
+            ext = ctx.repo.external_name(f.module, c.func) or ""
+            is_fs = last in DELETERS and (ext.startswith(("os.", "shutil.", "pathlib.")) or (isinstance(c.func, ast.Attribute) and last in ("unlink", "rmdir", "truncate")) or (last in ("rmtree", "removedirs")))
+            if last == "replace" and not ext.startswith(("os.", "shutil.")):
+                is_fs = False  # str.replace
+            if last in ("remove", "move") and not ext.startswith(("os.", "shutil.")):
+                is_fs = False  # list.remove
+            if is_fs:
+                bad.append(c)
+        ctx.check(not bad, f.qual + "#never-deletes", "removes / truncates no file" if not bad else f"`{norm(bad[0])[:60]}` removes or truncates a file: an existing output (e.g. the file whose presence made the write fail) is destroyed", where=f, node=bad[0] if bad else f.node)
+    ctx.floor(n, 20)
+
+
+FIXTURES = dict(globals().get("FIXTURES", {}), r6_outputs_never_delete={"dir": "c19_r2", "expect_construct": "#never-deletes"})
+
+
+RULES = [r6_outputs_never_delete, r5_one_suffix_per_run, r1_fresh_directory, r2_no_clobber_writers, r3_attribution, r4_completeness_and_tables]
